@@ -199,6 +199,9 @@ pub fn last_panic_location() -> String {
 
 /// Thread CPU time in seconds (immune to machine load).
 pub fn thread_cpu_secs() -> f64 {
+    if cfg!(miri) {
+        return 0.0;
+    }
     let mut ts = libc::timespec { tv_sec: 0, tv_nsec: 0 };
     unsafe {
         libc::clock_gettime(libc::CLOCK_THREAD_CPUTIME_ID, &mut ts);
